@@ -333,6 +333,11 @@ def to_U(v):
         return u_of_str(z3.StringVal(v))
     if isinstance(v, int):
         return u_of_int(z3.IntVal(v))
+    if isinstance(v, tuple):
+        comps = [to_U(x) for x in v]
+        if not comps:
+            return z3.Const("tuple0", U)
+        return z3.Function(f"tuple{len(comps)}", *([U] * len(comps)), U)(*comps)
     if isinstance(v, LazyComp):
         return z3.Const(f"comprehension!{id(v)}", U)  # opaque: nothing is assumed about it
     if isinstance(v, Ref):
@@ -1722,6 +1727,9 @@ class Engine:
         if is_z3(o) and o.sort() == z3.StringSort():
             lk = lift(k)
             return [(st, z3.SubString(o, lk, 1), None)]
+        if isinstance(o, GlobalV):
+            # e.g. ty.Union[X]: an opaque global object
+            return [(st, GlobalV(f"{o.dotted}[{ast.unparse(node.slice)}]"), None)]
         raise Unsupported(f"subscript of {type(o).__name__}")
 
     # ---- comprehensions
